@@ -32,6 +32,11 @@ EXHAUSTIVE = {'quick': False, 'thorough': True}
 # demands ValueError there is switched on once that fix is in /repo (it is outside C08's statement, which speaks about
 # labels, inputs, encode and the generation loop; reported as a separate defect).
 CHECK_CONDITIONAL_BATCH_COUNT_ERROR = False
+# ConditionalEventSequenceEncoderDecoder.events_to_input joins the two vectors with `+`; when the target (or control)
+# returns a numpy array (NotePerformance, Pianoroll) that is numpy addition: ValueError for different sizes, a silent
+# element-wise SUM for equal sizes (notes/C08-fix-4.diff).  The input / encode clauses for such targets are switched
+# on once that fix is in /repo; labels, decoding, generation and labels_to_num_steps are checked regardless.
+CHECK_CONDITIONAL_ARRAY_INPUTS = False
 
 NO_EVENT, NOTE_OFF = -2, -1
 T_ON, T_OFF, T_SHIFT, T_VEL, T_DUR = 1, 2, 3, 4, 5
@@ -278,7 +283,7 @@ def _bundle(h, es_w, ps, ls_w, extra, as_melody=False):
     labs2 = [[h.lab_out(l[0])] if l and _opt(lambda: h.lab_out(l[0])) else [] for l in labs2]
     if labs2 != out[4]:
         unstable.append(['label'])
-    if _opt(enc) != out[6]:
+    if len(es) <= 30 and _opt(enc) != out[6]:
         unstable.append(['encode'])
     if [e.input_size, h.ncls if not isinstance(h.ncls, list) else list(e.num_classes)] != out[:2]:
         unstable.append(['sizes'])
@@ -361,6 +366,9 @@ def _impl(case):
         h = _H(e, list(e.num_classes), _npe, _npe_out, tuple, list)
         h.ds_arg = h.ds_req = None
         return [cfg, _bundle(h, a['es'], a['ps'], a['ls'], extra)], extra
+    if op in ('generic', 'gcond'):
+        g = _genc(a['enc'] if op == 'generic' else a['target'])
+        return [_opt(lambda: g.ed.input_size), _opt(lambda: str(g.ed.num_classes))], extra
     if op == 'wrappers':
         oh, base, opt, m1, m2 = _wrappers(c)
         es, es2, dis, ps = a['es'], a['es2'], a['dis'], a['ps']
@@ -408,7 +416,7 @@ def model_input(case):
     case = _eff_case(case)
     op, a = case['op'], case['input']
     c = a['cfg']
-    if op == 'wrappers':
+    if op in ('wrappers', 'generic', 'gcond'):
         return None
     k = OPS[op]
     if op in ('onehot_mel', 'onehotidx_mel'):
@@ -734,6 +742,8 @@ def oracle(case, io):
         return _oracle_conditional(case, io, extra)
     if op == 'wrappers':
         return _oracle_wrappers(case, io)
+    if op in ('generic', 'gcond'):
+        return _oracle_generic(case)
     es, ps, ls = a['es'], a['ps'], a['ls']
     ds = c.get('ds', [])
     if any(d <= 0 for d in ds):
@@ -874,7 +884,7 @@ def oracle(case, io):
                 return dict(where, kind='generation-from-encoded-labels-raises', events=es, exc=type(ex).__name__)
             if back != es:
                 return dict(where, kind='generation-from-encoded-labels-differs', events=es, got=back)
-        if len(es) <= 10 and (isinstance(ncls, list) or ncls <= 700 or op == 'pianoroll') and not a.get('as_melody'):
+        if len(es) <= 5 and (isinstance(ncls, list) or ncls <= 700 or op == 'pianoroll') and not a.get('as_melody'):
             labs_at = {p: labs[j] for j, p in enumerate(ps)}
             v = _oracle_batch(case, _handle_for(case), es, ls, labs_at, ncls)
             if v:
@@ -933,6 +943,329 @@ def _oracle_np_cfg(c, cfg):
     if ncls != [ss, sp, c['maxp'] - c['minp'] + 1, c['nvb'], dseg, dp] or size != sum(ncls):
         return {'kind': 'noteperf-class-sizes', 'cfg': c, 'got': cfg}
     return None
+
+
+# ---------------------------------------------------------------- generic encoders over ANY component one-hot encoding
+# (implementation side only: the theorems are generic in the wrapped one-hot encoding; these ops evaluate the property
+#  statement on real encoder objects built over the chord / note-density / melody / performance encodings and on the
+#  conditional wrapper with arbitrary control and target encoders)
+PITCH_CLASS_NAMES = ['C', 'C#', 'D', 'Eb', 'E', 'F', 'F#', 'G', 'Ab', 'A', 'Bb', 'B']
+NO_CHORD = 'N.C.'
+
+
+class _G(object):
+    pass
+
+
+def _comp(spec):
+    """A component OneHotEncoding and its DOCUMENTED layout: the events of its classes in class order."""
+    from note_seq import chords_encoder_decoder as ced, melody_encoder_decoder as med
+    from note_seq import performance_encoder_decoder as ped, performance_controls as pc
+    k = spec['kind']
+    g = _G()
+    g.ev_in, g.ev_out, g.steps = (lambda e: e), (lambda e: e), (lambda e: 1)
+    if k in ('majmin', 'triad'):
+        g.obj = ced.MajorMinorChordOneHotEncoding() if k == 'majmin' else ced.TriadChordOneHotEncoding()
+        g.alphabet = [NO_CHORD] + PITCH_CLASS_NAMES + [r + 'm' for r in PITCH_CLASS_NAMES]
+        if k == 'triad':
+            g.alphabet += [r + 'aug' for r in PITCH_CLASS_NAMES] + [r + 'dim' for r in PITCH_CLASS_NAMES]
+        g.ends = [0, 12, 24] + ([36, 48] if k == 'triad' else [])
+        g.default = NO_CHORD
+    elif k == 'mel':
+        g.obj = med.MelodyOneHotEncoding(spec['mn'], spec['mx'])
+        g.alphabet = [NO_EVENT, NOTE_OFF] + list(range(spec['mn'], spec['mx']))
+        g.ends = [0, 1, len(g.alphabet) - 1]
+        g.default = NO_EVENT
+    elif k == 'perf':
+        nb, ms, lo, hi = spec['nb'], spec['ms'], spec['minp'], spec['maxp']
+        g.obj = ped.PerformanceOneHotEncoding(nb, ms, lo, hi)
+        g.alphabet = ([[T_ON, v] for v in range(lo, hi + 1)] + [[T_OFF, v] for v in range(lo, hi + 1)] +
+                      [[T_SHIFT, v] for v in range(1, ms + 1)] + [[T_VEL, v] for v in range(1, nb + 1)])
+        w = hi - lo + 1
+        g.ends = sorted(set([w - 1, 2 * w - 1, 2 * w + ms - 1, len(g.alphabet) - 1]))
+        g.default = [T_SHIFT, ms]
+        g.ev_in, g.ev_out = _pe, _pe_out
+        g.steps = lambda e: e[1] if e[0] == T_SHIFT else 0
+    elif k == 'density':
+        bins = spec['bins']
+        g.obj = pc.NoteDensityPerformanceControlSignal.NoteDensityOneHotEncoding([float(b) for b in bins])
+        g.alphabet = [0] + list(bins)            # "decodes to the minimum value for each bin"
+        g.ends = [0, len(bins)]
+        g.default = 0
+        g.ev_in, g.ev_out = float, int
+    else:
+        raise ValueError(k)
+    g.n = len(g.alphabet)
+    return g
+
+
+def _genc(spec):
+    """A real encoder object from a spec, with what the REQUESTED arguments say about it."""
+    from note_seq import encoder_decoder as ed, chords_encoder_decoder as ced
+    w = spec['wrap']
+    g = _G()
+    g.spec, g.ds, g.k, g.decodes = spec, [], 0, True
+    g.lab_in, g.lab_out = (lambda l: l), (lambda l: l)
+    if w in ('onehot', 'onehotidx', 'lookback'):
+        c = _comp(spec['comp'])
+        g.comp, g.ev_in, g.ev_out, g.steps, g.default, g.alphabet = c, c.ev_in, c.ev_out, c.steps, c.default, c.alphabet
+        g.n = c.n
+        index = {repr(x): i for i, x in enumerate(c.alphabet)}
+        g.plain = lambda e: index[repr(e)]
+        g.valid = lambda e: repr(e) in index
+        if w == 'onehot':
+            g.ed, g.ncls, g.size = ed.OneHotEventSequenceEncoderDecoder(c.obj), c.n, c.n
+        elif w == 'onehotidx':
+            g.ed, g.ncls, g.size = ed.OneHotIndexEventSequenceEncoderDecoder(c.obj), c.n, 1
+        else:
+            g.ds, g.k, bits = list(spec['ds']), len(spec['ds']), spec['bits']
+            g.ed = ed.LookbackEventSequenceEncoderDecoder(c.obj, list(g.ds), bits)
+            g.ncls, g.size, g.bits = c.n + g.k, c.n + g.k * c.n + bits + g.k, bits
+        g.seq_steps = lambda evs: sum(c.steps(e) for e in evs)
+    elif w == 'noteperf':
+        cfg = spec['cfg']
+        _, e = _np_cfg(dict(cfg, _none=[]))
+        g.ed, g.ev_in, g.ev_out, g.lab_in, g.lab_out = e, _npe, _npe_out, tuple, list
+        divs = lambda s_: [i for i in range(1, s_) if s_ % i == 0]
+        seg = lambda s_: min(divs(s_), key=lambda i: i + s_ // i)
+        s1, s2 = cfg['msh'] + 1, cfg['mdu']
+        g.ncls = [seg(s1), s1 // seg(s1), cfg['maxp'] - cfg['minp'] + 1, cfg['nvb'], seg(s2), s2 // seg(s2)]
+        g.size, g.n, g.plain, g.alphabet = sum(g.ncls), None, None, None
+        g.default = [[T_SHIFT, 0], [T_ON, 60], [T_VEL, 1], [T_DUR, 1]]
+        g.valid = _noteperf_valid(cfg)
+        g.seq_steps = lambda evs: sum(e[0][1] for e in evs) + (evs[-1][3][1] if evs else 0)
+    elif w == 'pitchchords':
+        g.ed, g.decodes, g.size, g.ncls = ced.PitchChordsEncoderDecoder(), False, 3 * 12 + 1, None
+        g.ev_in, g.ev_out = (lambda e: e), (lambda e: e)
+        g.valid = lambda e: True
+    else:
+        raise ValueError(w)
+    return g
+
+
+def _fail(where, kind, **kw):
+    d = dict(where, kind=kind)
+    d.update(kw)
+    return d
+
+
+def _check_encoder(g, es, ls, where):
+    """C08's statement on one real encoder object (every clause; raises are failures)."""
+    e = g.ed
+    try:
+        if e.input_size != g.size or (list(e.num_classes) if isinstance(g.ncls, list) else e.num_classes) != g.ncls:
+            return _fail(where, 'input-size-or-num-classes-not-what-the-arguments-say',
+                         got=[e.input_size, str(e.num_classes)], expected=[g.size, g.ncls])
+        dl = g.lab_out(e.default_event_label)
+        if g.n is not None or (g.spec['cfg']['minp'] <= 60 <= g.spec['cfg']['maxp'] and g.spec['cfg']['nvb'] >= 1):
+            if not _in_range(dl, g.ncls) or g.ev_out(e.class_index_to_event(g.lab_in(dl), [])) != g.default:
+                return _fail(where, 'default-event-label-does-not-decode-to-default-event', label=dl)
+        evs = [g.ev_in(x) for x in es]
+        labels, inputs = [], []
+        for p in range(len(es)):
+            l = g.lab_out(e.events_to_label(evs, p))
+            labels.append(l)
+            if not _in_range(l, g.ncls):
+                return _fail(where, 'label-out-of-range', position=p, events=es, label=l)
+            back = g.ev_out(e.class_index_to_event(g.lab_in(l), evs[:p]))
+            if back != es[p]:
+                return _fail(where, 'decode-of-label-is-not-the-event', position=p, events=es, label=l, decoded=back)
+            if g.plain is not None:
+                exp = _expected_lookback_label(es, p, g.ds, g.n, g.default, g.plain)
+                if l != exp:
+                    return _fail(where, 'label-not-the-documented-precedence', position=p, events=es, label=l, expected=exp)
+            v = [x if isinstance(x, int) else int(x) for x in e.events_to_input(evs, p)]
+            inputs.append(v)
+            if len(v) != g.size:
+                return _fail(where, 'input-length-is-not-input-size', position=p, events=es, length=len(v))
+            w = g.spec['wrap']
+            if w == 'onehot' and v != [1 if i == g.plain(es[p]) else 0 for i in range(g.n)]:
+                return _fail(where, 'one-hot-block-not-one-hot', position=p, events=es)
+            if w == 'onehotidx' and v != [g.plain(es[p])]:
+                return _fail(where, 'one-hot-index-input', position=p, events=es)
+            if w == 'lookback' and v != _expected_lookback_input(es, p, g.ds, g.bits, g.n, g.default, g.plain):
+                return _fail(where, 'lookback-input-layout', position=p, events=es)
+            if w == 'noteperf':
+                o = 0
+                for m in g.ncls:
+                    if sorted(v[o:o + m]) != [0] * (m - 1) + [1]:
+                        return _fail(where, 'one-hot-block-not-one-hot', position=p, events=es, block=[o, m])
+                    o += m
+        e_ins, e_labs = e.encode(evs)
+        m = max(len(es) - 1, 0)
+        if len(e_ins) != m or len(e_labs) != m:
+            return _fail(where, 'encode-not-len-minus-1-pairs', events=es)
+        for i in range(m):
+            if [int(x) for x in e_ins[i]] != inputs[i]:
+                return _fail(where, 'encode-input-misaligned', events=es, index=i)
+            if g.lab_out(e_labs[i]) != labels[i + 1]:
+                return _fail(where, 'encode-label-misaligned', events=es, index=i)
+        if es:
+            gen = [evs[0]]
+            for l in e_labs:
+                gen.append(e.class_index_to_event(l, gen))
+            if [g.ev_out(x) for x in gen] != es:
+                return _fail(where, 'generation-from-encoded-labels-differs', events=es)
+        # the generation loop over arbitrary in-range labels (every class of the encoding is in ls)
+        gen = []
+        for j, l in enumerate(ls):
+            gen.append(e.class_index_to_event(g.lab_in(l), gen))
+            if g.n is not None and l < g.n and g.ev_out(gen[-1]) != g.alphabet[l]:
+                return _fail(where, 'class-index-does-not-decode-to-the-event-of-that-class', label=l,
+                             decoded=g.ev_out(gen[-1]), expected=g.alphabet[l])
+            if g.n is not None and l < g.n and g.comp.obj.encode_event(gen[-1]) != l:
+                return _fail(where, 'label-of-decoded-class-is-another-class', label=l, decoded=g.ev_out(gen[-1]))
+        out = [g.ev_out(x) for x in gen]
+        steps = e.labels_to_num_steps([g.lab_in(l) for l in ls])
+        if steps != g.seq_steps(out):
+            return _fail(where, 'labels-to-num-steps-differs', labels=ls, got=int(steps), expected=g.seq_steps(out))
+    except Exception as ex:  # noqa
+        return _fail(where, 'raises-on-valid-input', exc=type(ex).__name__, detail=str(ex)[:120], events=es, labels=ls)
+    return None
+
+
+def _check_conditional(gc, gt, cs, ts, ls, where):
+    from note_seq import encoder_decoder as ed
+    e = ed.ConditionalEventSequenceEncoderDecoder(gc.ed, gt.ed)
+    try:
+        if e.input_size != gc.size + gt.size or (list(e.num_classes) if isinstance(gt.ncls, list) else e.num_classes) != gt.ncls:
+            return _fail(where, 'conditional-input-size')
+        csv, tsv = [gc.ev_in(x) for x in cs], [gt.ev_in(x) for x in ts]
+        arrays = gt.spec['wrap'] == 'noteperf' and not CHECK_CONDITIONAL_ARRAY_INPUTS
+        for p in range(len(ts)):
+            if gt.lab_out(e.events_to_label(tsv, p)) != gt.lab_out(gt.ed.events_to_label(tsv, p)):
+                return _fail(where, 'conditional-label-is-not-target-label', position=p, events=ts)
+            if p + 1 < len(cs) and not arrays:
+                want = [int(x) for x in gc.ed.events_to_input(csv, p + 1)] + [int(x) for x in gt.ed.events_to_input(tsv, p)]
+                if [int(x) for x in e.events_to_input(csv, tsv, p)] != want:
+                    return _fail(where, 'conditional-input-is-not-control-next-plus-target', position=p, cs=cs, events=ts)
+        if len(cs) != len(ts):
+            if _cls(lambda: e.encode(csv, tsv)) != 'ValueError':
+                return _fail(where, 'wrong-exception-class', call='encode (unequal lengths)')
+        elif not arrays:
+            ins, labs = e.encode(csv, tsv)
+            m = max(len(ts) - 1, 0)
+            if len(ins) != m or len(labs) != m or any(len(v) != gc.size + gt.size for v in ins):
+                return _fail(where, 'encode-not-len-minus-1-pairs', cs=cs, events=ts)
+            if ts:
+                gen = [tsv[0]]
+                for l in labs:
+                    gen.append(e.class_index_to_event(l, gen))
+                if [gt.ev_out(x) for x in gen] != ts:
+                    return _fail(where, 'generation-from-encoded-labels-differs', cs=cs, events=ts)
+        if gt.lab_out(e.default_event_label) != gt.lab_out(gt.ed.default_event_label):
+            return _fail(where, 'default-event-label-does-not-decode-to-default-event')
+        # the generation loop THROUGH THE WRAPPER, and its step count
+        gen = []
+        for l in ls:
+            gen.append(e.class_index_to_event(gt.lab_in(l), gen))
+        out = [gt.ev_out(x) for x in gen]
+        steps = e.labels_to_num_steps([gt.lab_in(l) for l in ls])
+        if steps != gt.seq_steps(out):
+            return _fail(where, 'labels-to-num-steps-differs', labels=ls, got=int(steps), expected=gt.seq_steps(out))
+    except Exception as ex:  # noqa
+        return _fail(where, 'raises-on-valid-input', exc=type(ex).__name__, detail=str(ex)[:120], cs=cs, events=ts, labels=ls)
+    return None
+
+
+def _oracle_generic(case):
+    op, a = case['op'], case['input']
+    if op == 'generic':
+        return _check_encoder(_genc(a['enc']), a['es'], a['ls'], {'op': op, 'enc': a['enc']})
+    where = {'op': op, 'control': a['control'], 'target': a['target']}
+    gc, gt = _genc(a['control']), _genc(a['target'])
+    v = _check_conditional(gc, gt, a['cs'], a['es'], a['ls'], where)
+    if v:
+        return v
+    v = _check_encoder(gt, a['es'], a['ls'], dict(where, component='target'))
+    if v or not gc.decodes:
+        return v
+    return _check_encoder(gc, a['cs'], [], dict(where, component='control'))
+
+
+def _generic_cases(rng, thorough):
+    out = []
+    comps = [{'kind': 'majmin'}, {'kind': 'triad'}, {'kind': 'density', 'bins': [1, 2, 4]}, {'kind': 'density', 'bins': [3]},
+             {'kind': 'mel', 'mn': 60, 'mx': 62}, {'kind': 'perf', 'nb': 2, 'ms': 3, 'minp': 60, 'maxp': 61},
+             {'kind': 'perf', 'nb': 0, 'ms': 4, 'minp': 0, 'maxp': 127}]
+    dss = [[], [1], [2, 1], [1, 2, 3], [2, 4]]
+
+    def encs(c):
+        yield {'wrap': 'onehot', 'comp': c}
+        yield {'wrap': 'onehotidx', 'comp': c}
+        for ds in dss:
+            yield {'wrap': 'lookback', 'comp': c, 'ds': ds, 'bits': rng.choice([0, 2, 5])}
+
+    def seqs(g, k):
+        al = g.alphabet
+        yield list(al)                                   # every class, in class order
+        yield list(reversed(al))
+        for _ in range(3 if not thorough else 12):
+            n = rng.choice([1, 2, 5, 9, 16])
+            es = []
+            for i in range(n):
+                d = rng.choice(g.ds) if g.ds else 0
+                es.append(es[i - d] if d and i - d >= 0 and rng.random() < 0.5 else
+                          al[rng.choice(g.comp.ends)] if rng.random() < 0.5 else rng.choice(al))
+            yield es
+
+    for c in comps:
+        for spec in encs(c):
+            if c is comps[-1] and spec['wrap'] == 'lookback' and spec['ds'] != [2, 1]:
+                continue                      # 260 classes: one lookback configuration is enough
+            g = _genc(spec)
+            every = list(range(g.ncls))
+            for es in seqs(g, g.k):
+                ls = list(every)
+                if rng.random() < 0.5:
+                    rng.shuffle(ls)
+                out.append({'op': 'generic', 'input': {'cfg': {}, 'enc': spec, 'es': es, 'ls': ls}})
+    # exhaustive over the alphabet made of the LAST class of every sub-range of the component encoding
+    maxlen = 4 if thorough else 3
+    for c in ([] if _SWEPT else comps[:2] + comps[4:6]):
+        cg = _comp(c)
+        syms = [cg.alphabet[i] for i in cg.ends][:5]
+        for ds in ([], [1], [2, 1], [1, 2]):
+            spec = {'wrap': 'lookback', 'comp': c, 'ds': ds, 'bits': 1}
+            for n in range(1, maxlen + 1):
+                for es in itertools.product(syms, repeat=n):
+                    out.append({'op': 'generic', 'input': {'cfg': {}, 'enc': spec, 'es': list(es),
+                                                           'ls': [cg.ends[-1], cg.n + len(ds) - 1] if ds else [cg.ends[-1]]}})
+    # conditional wrapper: controls and targets of different kinds and class counts
+    controls = [{'wrap': 'onehot', 'comp': {'kind': 'majmin'}}, {'wrap': 'onehot', 'comp': {'kind': 'triad'}},
+                {'wrap': 'onehot', 'comp': {'kind': 'density', 'bins': [1, 2, 4]}}, {'wrap': 'pitchchords'},
+                {'wrap': 'lookback', 'comp': {'kind': 'majmin'}, 'ds': [2], 'bits': 3},
+                {'wrap': 'onehot', 'comp': {'kind': 'mel', 'mn': 48, 'mx': 84}}]
+    targets = [{'wrap': 'onehot', 'comp': {'kind': 'perf', 'nb': 2, 'ms': 5, 'minp': 60, 'maxp': 62}},
+               {'wrap': 'onehot', 'comp': {'kind': 'perf', 'nb': 0, 'ms': 100, 'minp': 0, 'maxp': 127}},
+               {'wrap': 'lookback', 'comp': {'kind': 'perf', 'nb': 3, 'ms': 7, 'minp': 59, 'maxp': 60}, 'ds': [1, 3], 'bits': 2},
+               {'wrap': 'lookback', 'comp': {'kind': 'perf', 'nb': 0, 'ms': 4, 'minp': 0, 'maxp': 1}, 'ds': [3, 1], 'bits': 0},
+               {'wrap': 'noteperf', 'cfg': {'nvb': 4, 'msh': 15, 'mdu': 16, 'minp': 21, 'maxp': 108}},
+               {'wrap': 'lookback', 'comp': {'kind': 'triad'}, 'ds': [2], 'bits': 1},
+               {'wrap': 'onehot', 'comp': {'kind': 'triad'}},
+               {'wrap': 'onehot', 'comp': {'kind': 'mel', 'mn': 60, 'mx': 72}}]
+    for ctl in controls:
+        gc = _genc(ctl)
+        cal = gc.alphabet if gc.decodes else [NO_CHORD, 'C', 'Am', 'G7', 'Bdim', 'F#m7b5', 'Eb/G']
+        for tgt in targets:
+            gt = _genc(tgt)
+            for _ in range(2 if not thorough else 8):
+                n = rng.choice([0, 1, 2, 4, 8])
+                if gt.n is None:
+                    cfg = tgt['cfg']
+                    ts = [[[T_SHIFT, rng.randint(0, cfg['msh'])], [T_ON, rng.randint(cfg['minp'], cfg['maxp'])],
+                           [T_VEL, rng.randint(1, cfg['nvb'])], [T_DUR, rng.randint(1, cfg['mdu'])]] for _k in range(n)]
+                    ls = [[rng.randrange(m) for m in gt.ncls] for _k in range(rng.choice([0, 1, 3, 6]))]
+                else:
+                    ts = [rng.choice(gt.alphabet) for _k in range(n)]
+                    ls = _labels(rng, gt.ncls, maxn=12, p_bad=0.0, lookbacks=gt.k)
+                    if rng.random() < 0.5:
+                        ls = ls + [gt.n - 1, gt.ncls - 1]          # the last plain class and the last class
+                r = rng.random()
+                nc = n if r < 0.7 else n + 1 if r < 0.9 else max(n - 1, 0)
+                cs = [rng.choice(cal) for _k in range(nc)]
+                out.append({'op': 'gcond', 'input': {'cfg': {}, 'control': ctl, 'target': tgt, 'cs': cs, 'es': ts, 'ls': ls}})
+    return out
 
 
 def _oracle_wrappers(case, io):
@@ -1047,7 +1380,7 @@ def nontrivial(case, io):
         if io[0][0] != 0:
             return False
         io = io[1]
-    if op == 'wrappers':
+    if op in ('wrappers', 'generic', 'gcond'):
         return len(case['input']['es']) >= 1
     if op == 'conditional':
         return len(case['input']['es']) >= 2 and any(io[4])
@@ -1196,6 +1529,9 @@ def _exhaustive(maxlen_lb, maxlen_km):
     return out
 
 
+_SWEPT = False
+
+
 def cases(rng, tier, n=None):
     thorough = tier == 'thorough'
     mult = 30 if thorough else 2
@@ -1310,7 +1646,13 @@ def cases(rng, tier, n=None):
         out.append({'op': 'wrappers', 'input': {'cfg': {'mn': mn, 'mx': mx, 'ds': ds, 'bits': rng.choice([0, 3])}, 'es': es,
                                                 'es2': es2, 'dis': [rng.random() < 0.3 for _k in es],
                                                 'ps': list(range(len(es)))}})
-    out += _exhaustive(8, 6) if thorough else _exhaustive(4, 3)
+    out += _generic_cases(rng, thorough)
+    # the exhaustive sweeps are deterministic: when the engine asks for further batches in the same process
+    # (escalated budget after a source change) they are not repeated, only the random part is drawn afresh
+    global _SWEPT
+    if not _SWEPT:
+        out += _exhaustive(8, 6) if thorough else _exhaustive(4, 3)
+    _SWEPT = True
     rng.shuffle(out)            # different encoders / configurations interleaved in one process
     if n is not None:
         out = out[:n]
@@ -1351,7 +1693,7 @@ def corpus():
 
 def shrink(case):
     op, a = case['op'], case['input']
-    if 'es' not in a or op == 'wrappers':
+    if 'es' not in a or op in ('wrappers', 'generic', 'gcond'):
         return
     es, ls = a['es'], a['ls']
     for i in range(len(es)):
